@@ -7,8 +7,14 @@ use crate::debugger::error::Error::{MultipleErrors, NoThreadDB, Ptrace, ThreadDB
 use crate::debugger::register::{Register, RegisterMap};
 use log::{debug, warn};
 use nix::errno::Errno;
+#[cfg(feature = "verif")]
+use crate::verif::sys;
+#[cfg(feature = "verif")]
+use crate::verif::sys::wait::{WaitStatus, waitpid};
+#[cfg(not(feature = "verif"))]
 use nix::sys;
 use nix::sys::signal::Signal;
+#[cfg(not(feature = "verif"))]
 use nix::sys::wait::{WaitStatus, waitpid};
 use nix::unistd::Pid;
 use ouroboros::self_referencing;
